@@ -73,11 +73,19 @@ def gen_world_files(rng):
         'big = (1 + 2) * (3 + 4)',
         '',
     ]
+    if rng.random() < 0.3:
+        # non-ASCII text outside and inside the rewritten nodes (columns are code points)
+        main[8] = '    # a comment that must survive: \u00fcn\u00efc\u00f6d\u00e9 \u2603'
+        main.insert(16, 'gr\u00f6\u00dfe = local_fn(3, 4)')
     files['main.py'] = '\n'.join(main)
     # some files lack the final newline (must be preserved byte for byte by apply())
     for p in sorted(files):
         if rng.random() < 0.3:
             files[p] = files[p].rstrip('\n')
+    # some files have CRLF line ends (apply() must write them back untranslated)
+    for p in sorted(files):
+        if rng.random() < 0.15:
+            files[p] = files[p].replace('\n', '\r\n')
     return files
 
 
@@ -349,7 +357,7 @@ class C07(base.Engine):
     technique = 'deterministic simulation: simulated file-system content model vs real disk after every op of seeded refactor/inspect/apply histories across cache states and host restarts'
     budgets = (60, 1200)
     assumptions = [
-        'only the disk-effect clauses and diff<->new-code agreement on the generated (newline-terminated, LF) sources are decided; byte preservation over all inputs and the exception contract are input-universal and not claimed',
+        'only the disk-effect clauses and diff<->new-code agreement on the generated sources (LF and CRLF files, with and without final newline, some non-ASCII text) are decided; byte preservation over all inputs and the exception contract are input-universal and not claimed',
         'no disk faults are injected: the statement promises nothing about a failing apply()',
         'the history is built adaptively: positions for step k are computed from the model content after step k-1',
     ]
